@@ -225,7 +225,7 @@ class Ctx:
         self.obligation("static development builds (all hand-written theorems)", ok, out if not ok else "", "theorem")
         if not ok:
             self.broken_machinery.append("static Coq development failed to build:\n" + out[-3000:])
-        elif not getattr(self, "_snap_done", False):
+        elif not getattr(self, "_snap_done", False) and not os.environ.get("VERIF_NOSNAP"):   # VERIF_NOSNAP: dev only (seed statistics)
             # T-snap: has the text the models were transcribed from changed?  (sets self.changed / self.deep)
             self._snap_done = True
             from translate import snap
